@@ -72,6 +72,7 @@ THEOREMS = [
     "PyTrie.Props.C09.history_blocks_preserves",
     "PyTrie.Props.C09.schedOk_of_history_with_blocks",
     "PyTrie.Props.C09.walk_over_history_with_blocks",
+    "PyTrie.Props.C09.walk_over_history_with_blocks_bounded",
 ]
 RULE = ("walks over tries built by generated histories: at every step an unexplored prefix is taken with nearest_unknown or "
         "nearest_right for a (changing) query key, traversed from the root or from a TrieFrontierCache entry (stale entries "
